@@ -65,7 +65,13 @@ class LeadingLengthInfoType(DiagCodedType):
             # encoded form (which depends on the specified encoding)
             str_encoding = get_string_encoding(self.base_data_type, self.base_type_encoding,
                                                self.is_highlow_byte_order)
-            byte_length = len(internal_value.encode(str_encoding or "utf-8"))
+            try:
+                byte_length = len(internal_value.encode(str_encoding or "utf-8"))
+            except UnicodeError as e:
+                odxraise(
+                    f"The string '{internal_value!r}' cannot be encoded "
+                    f"using {str_encoding}: {e}", EncodeError)
+                return
         else:
             byte_length = len(internal_value)
 
